@@ -44,6 +44,13 @@ impl FileSystem for Vfs {
         n_opts.in_opts = opts;
 
         n_opts.out_opts &= opts;
+        #[cfg(target_os = "linux")]
+        {
+            // no_open/no_opendir may only be in force if the feature is part of what gets negotiated.
+            n_opts.no_open = n_opts.no_open && n_opts.out_opts.contains(FsOptions::ZERO_MESSAGE_OPEN);
+            n_opts.no_opendir =
+                n_opts.no_opendir && n_opts.out_opts.contains(FsOptions::ZERO_MESSAGE_OPENDIR);
+        }
         self.opts.store(Arc::new(n_opts));
         {
             // Serialize mount operations. Do not expect poisoned lock here.
